@@ -113,6 +113,40 @@ func runSimCheck(spec *simCheckSpec, args []string) int {
 			}
 		}
 	}
+	// left-over budget: scenarios that were cut off at some level get one more run at that level with an equal share
+	// of what remains (a level that was never started is started now)
+	if os.Getenv("VERIF_NORETRY") == "" {
+		var again []*simScenario
+		for _, sc := range scs {
+			if capped[sc.Name] {
+				again = append(again, sc)
+			}
+		}
+		for i, sc := range again {
+			left := total - time.Since(start)
+			share := left / time.Duration(len(again)-i)
+			old := last[sc.Name]
+			if share < 8*time.Second || (old != nil && share < time.Duration(old.Wall*1.3*float64(time.Second))) {
+				continue
+			}
+			d := lastDev[sc.Name]
+			if d == 0 {
+				d = 1
+			}
+			c := cloneScenario(sc)
+			c.MaxDev = d
+			res := explore(c, share, 0)
+			if old != nil {
+				res.Findings = append(res.Findings, old.Findings...)
+				if !res.Exhaustive && res.States < old.States {
+					// the earlier run got further: keep its numbers, and whatever this one found
+					old.Findings = res.Findings
+					continue
+				}
+			}
+			last[sc.Name], lastDev[sc.Name] = res, d
+		}
+	}
 	for _, sc := range scs {
 		res := last[sc.Name]
 		if res == nil {
@@ -164,7 +198,7 @@ func runSimCheck(spec *simCheckSpec, args []string) int {
 				scj, _ := json.Marshal(sc)
 				run.Violation(fk, f.Viol.Desc, map[string]interface{}{
 					"scenario": json.RawMessage(scj), "hist": f.Hist, "oracle": f.Viol.Oracle,
-					"history_readable": histStrings(f.Hist),
+					"history_readable": histStrings(f.Hist), "final": f.Viol.Final, "prefix": f.Viol.Prefix,
 				})
 			} else {
 				other[fk]++
